@@ -834,6 +834,7 @@ def doubles(ctx, K, RecurrencePlot, rng, nprng, quick):
     with infinite samples in both storage modes (matrix of `set_fixed_threshold` = model
     `fixedThresholdX`, histograms = run-length counts of the implementation's own matrix)."""
     reqs, impl = [], []
+    lreqs, limpl = [], []
     for c in range(120 if quick else 1200):
         n = rng.choice([1, 2, 3, 3, 4, 5, 6, 8, 11] + ([] if quick else [17, 30]))
         dim = rng.choice([1, 1, 2, 3])
@@ -850,6 +851,19 @@ def doubles(ctx, K, RecurrencePlot, rng, nprng, quick):
                     ctx.fail({"kind": "kernel-doubles", "what": "rounding invented a recurrence"},
                              "a pair is recurrent in doubles but not in exact arithmetic",
                              {"E": enc_xmat(E.tolist()), "eps": repr(eps)})
+        # round 5: the matrix mode's distance kernel against its two outer loops AS WRITTEN
+        # (generated `supremum_rp_loops`, proved equal to the closed form of the model)
+        if n <= 11:
+            try:
+                Dm = np.array(K._supremum_distance_matrix_rp(n, dim, np.ascontiguousarray(E)))
+                lreqs.append(f"xdistloops b64 {n} {dim} {enc_xmat(E.tolist())}")
+                limpl.append(enc_xmat(Dm.tolist()))
+                ctx.count("kernel:_supremum_distance_matrix_rp(doubles)")
+            except Exception as e:  # noqa
+                ctx.fail({"kind": "kernel-doubles", "kernel": "_supremum_distance_matrix_rp",
+                          "error": type(e).__name__},
+                         f"_supremum_distance_matrix_rp raised {type(e).__name__}: {e}",
+                         {"E": enc_xmat(E.tolist())})
         for name, fn, mv in (("xvertline_seq", K._vertline_dist_sequential, False),
                              ("xdiagline_seq", K._diagline_dist_sequential, False),
                              ("xvertline_seq_mv", K._vertline_dist_sequential_missingvalues, True),
@@ -891,6 +905,8 @@ def doubles(ctx, K, RecurrencePlot, rng, nprng, quick):
                           "eps": repr(eps), "M": M.tolist(), "expected": exp, "observed": got})
     ctx.correspond("generated kernels at xOps(binary64) == compiled sequential kernels on doubles "
                    "with inf / nan / rounded differences", reqs, impl)
+    ctx.correspond("outer loops of _supremum_distance_matrix_rp as written (generated folds, binary64) == "
+                   "compiled distance kernel on doubles with inf / nan / rounded differences", lreqs, limpl)
 
     # (b) object level: infinite samples
     reqs, impl = [], []
